@@ -44,8 +44,13 @@ def validate(module: str, records: list[dict], *, cfg: str | None = None, shards
             e = {'TRACE_FILE': fp}
             if env:
                 e.update(env)
-            return run_tlc(module, cfg or module + '.cfg', env=e, workers=workers_per_shard,
-                           timeout=timeout, dfs_queue=dfs_queue)
+            r = run_tlc(module, cfg or module + '.cfg', env=e, workers=workers_per_shard,
+                        timeout=timeout, dfs_queue=dfs_queue)
+            if not r.ok and r.error is None and r.violated is None:
+                # the JVM went away without a TLC error (killed under memory pressure when many checks run at once): once more
+                r = run_tlc(module, cfg or module + '.cfg', env=e, workers=workers_per_shard,
+                            timeout=timeout, dfs_queue=dfs_queue)
+            return r
         with ThreadPoolExecutor(max_workers=len(files)) as ex:
             results = list(ex.map(one, files))
     finally:
